@@ -32,6 +32,7 @@ import (
 	"strconv"
 	"strings"
 	"sync"
+	"syscall"
 	"time"
 
 	"github.com/osteele/liquid"
@@ -47,6 +48,7 @@ func init() {
 			return "bad-case"
 		}
 		rb := newRobust(r)
+		defer rb.done()
 		return rb.exec(parseEngineCfg(f[1]), unhexField(f[2]), DecEnv(f[3]), strings.Join(f, " "), "replay")
 	}
 }
@@ -180,12 +182,12 @@ type robust struct {
 	r       *Run
 	seenSig map[string]int
 	w       *worker
-	local   bool   // run in-process (replay)
+	local   bool   // run in-process (debugging only: a case that hangs cannot be stopped)
 	class   string // class of the case being executed (for the histograms)
 }
 
 func newRobust(r *Run) *robust {
-	return &robust{r: r, seenSig: map[string]int{}, local: r.Replay != "" || os.Getenv("VERIF_ROBUST_LOCAL") != ""}
+	return &robust{r: r, seenSig: map[string]int{}, local: os.Getenv("VERIF_ROBUST_LOCAL") != ""}
 }
 
 func (rb *robust) done() {
@@ -219,6 +221,7 @@ func (rb *robust) runOnce(cfg engineCfg, src string, env map[string]*V, caseLine
 	}
 	if rb.w == nil {
 		rb.w = startWorker()
+		rb.w.call(calibrationLine, 20*time.Second) // warm-up: one-time initialisation is not timed
 	}
 	o, status, info := rb.w.call(caseLine, hard)
 	if status != "" {
@@ -226,6 +229,38 @@ func (rb *robust) runOnce(cfg engineCfg, src string, env map[string]*V, caseLine
 		rb.w = nil
 	}
 	return o, status, info
+}
+
+// The time clause is judged relative to the machine's speed at that moment: when a case
+// overshoots, a fixed calibration render is timed next to it (same worker, same metric) and the
+// limit is scaled by how much slower than nominal the calibration ran. On an idle machine the
+// factor is 1; on a machine loaded by other checks a trivial case can take hundreds of
+// milliseconds, and so does the calibration.
+const (
+	calibrationSrc     = "{% for i in (1..300) %}{{ i | plus: 1 }}{% endfor %}"
+	calibrationNominal = 600 * time.Microsecond // CPU time of calibrationSrc on an idle machine
+)
+
+var calibrationLine = robustLine(engineCfg{}, calibrationSrc, map[string]*V{})
+
+// slowdown times the calibration render (max of 2) and returns the factor by which the machine
+// is currently slower than nominal (>= 1); a huge factor when the calibration itself fails.
+func (rb *robust) slowdown() float64 {
+	worst := time.Duration(0)
+	for i := 0; i < 2; i++ {
+		o, status, _ := rb.runOnce(engineCfg{}, calibrationSrc, map[string]*V{}, calibrationLine, 20*time.Second)
+		if status != "" {
+			return 1e9
+		}
+		if o.Elapsed > worst {
+			worst = o.Elapsed
+		}
+	}
+	f := float64(worst) / float64(calibrationNominal)
+	if f < 1 {
+		f = 1
+	}
+	return f
 }
 
 // exec runs one case on the real code, evaluates the C01 oracle, and returns the result line.
@@ -237,30 +272,59 @@ func (rb *robust) exec(cfg engineCfg, src string, env map[string]*V, caseLine, c
 	if limit > caseHardLimit {
 		limit = caseHardLimit // nothing the generators build legitimately runs this long
 	}
-	hard := limit
-	if hard < 300*time.Millisecond {
-		hard = 300 * time.Millisecond // the kill limit is never below 0.3 s: scheduling noise must not kill workers
+	// The worker reports the CPU time of the case; the overshoot test uses that. The wall-clock
+	// kill limit only ends cases that do not return: generous, so that a loaded machine does not kill.
+	hard := 4*limit + 3*time.Second
+	if hard > caseHardLimit+3*time.Second {
+		hard = caseHardLimit + 3*time.Second
 	}
 	o, status, info := rb.runOnce(cfg, src, env, caseLine, hard)
 	if status != "" || o.Elapsed > limit {
-		// measure again (fresh worker) before reporting: a scheduling hiccup does not repeat
-		o2, status2, info2 := rb.runOnce(cfg, src, env, caseLine, hard)
-		switch {
-		case status == "died" && status2 == "died":
-			rb.violate("process-death", firstLine(info2), caseLine, "the process running the case died twice: "+info2+"   source: "+short(fmt.Sprintf("%q", src), 300))
-			o2.Res = "died"
-		case (status2 == "timeout" || o2.Elapsed > limit) && (status == "timeout" || o.Elapsed > limit):
-			rb.violate("time", class, caseLine, fmt.Sprintf("took %v and %v (killed at %v); nominal budget %v for %d source bytes (50x = %v)   source: %s",
-				o.Elapsed, o2.Elapsed, hard, budget, len(src), limit, short(fmt.Sprintf("%q", src), 300)))
-			if status2 == "timeout" {
-				o2.Res = "timeout"
+		// Measure twice more (fresh worker after a kill), with the calibration render in between,
+		// before reporting: a scheduling hiccup does not repeat, a loaded machine shows in the calibration.
+		took := func(o caseOutcome, status string) time.Duration {
+			if status == "timeout" {
+				return hard // a lower bound
 			}
-		case status2 != "":
-			r.Count("unjudged:" + status2)
-			o2.Res = status2
+			return o.Elapsed
 		}
-		o = o2
-		_ = info
+		least, deaths, lastInfo := took(o, status), 0, info
+		if status == "died" {
+			deaths++
+		}
+		slow := rb.slowdown()
+		for i := 0; i < 2; i++ {
+			o2, status2, info2 := rb.runOnce(cfg, src, env, caseLine, hard)
+			if status2 == "died" {
+				deaths++
+				lastInfo = info2
+			} else if t := took(o2, status2); t < least {
+				least = t
+			}
+			if status2 == "" {
+				o = o2
+			} else {
+				o.Res = status2
+			}
+			if s := rb.slowdown(); s > slow {
+				slow = s
+			}
+			if status2 == "" && o2.Elapsed <= limit {
+				break
+			}
+		}
+		switch {
+		case deaths == 3:
+			rb.violate("process-death", firstLine(lastInfo), caseLine, "the process running the case died three times: "+lastInfo+"   source: "+short(fmt.Sprintf("%q", src), 300))
+			o.Res = "died"
+		case deaths > 0:
+			r.Count("unjudged:died-not-repeatable")
+		case float64(least) > float64(limit)*slow:
+			rb.violate("time", class, caseLine, fmt.Sprintf("took at least %v of CPU time in each of 3 runs (a case that does not return is killed after %v); nominal budget %v for %d source bytes, 50x = %v, machine slowdown factor %.1f   source: %s",
+				least, hard, budget, len(src), limit, slow, short(fmt.Sprintf("%q", src), 300)))
+		case least > limit:
+			r.Count("time-overshoot-explained-by-load")
+		}
 	}
 	if o.Res == "panic" {
 		rb.violate("panic", panicSignature(o.Panic), caseLine, "panic: "+o.Panic+"   source: "+short(fmt.Sprintf("%q", src), 300))
@@ -342,8 +406,11 @@ func startWorker() *worker {
 	if err := cmd.Start(); err != nil {
 		panic(err)
 	}
+	rd := bufio.NewReaderSize(out, 1<<20)
+	if line, err := rd.ReadString('\n'); err != nil || strings.TrimSpace(line) != "ready" { // start-up is not timed
+		panic("robust worker did not start: " + w.stderr.String())
+	}
 	go func() {
-		rd := bufio.NewReaderSize(out, 1<<20)
 		for {
 			line, err := rd.ReadString('\n')
 			if err != nil {
@@ -412,6 +479,16 @@ func (w *worker) call(caseLine string, limit time.Duration) (caseOutcome, string
 	}
 }
 
+// threadCPU is the CPU time (user+system) consumed so far by this process (GOMAXPROCS=2: the
+// case's goroutine and the collector); -1 if unknown.
+func threadCPU() time.Duration {
+	var ru syscall.Rusage
+	if err := syscall.Getrusage(syscall.RUSAGE_SELF, &ru); err != nil {
+		return -1
+	}
+	return time.Duration(ru.Utime.Nano() + ru.Stime.Nano())
+}
+
 // robustWorker: the child side. Reads `robust ...` case lines from stdin, answers on stdout:
 // <result>\t<elapsed ns>\t<parsed 0|1>\t<output length>\t<panic hex>\t<bad-error hex>
 func robustWorker(r *Run) {
@@ -428,8 +505,12 @@ func robustWorker(r *Run) {
 			}
 		}
 	}()
+	// The time oracle uses the CPU time consumed by this process while it runs the case, not the
+	// wall clock: a loaded machine (16 shards, each with a worker) delays a process for long stretches.
 	rd := bufio.NewReaderSize(os.Stdin, 1<<20)
 	wr := bufio.NewWriter(os.Stdout)
+	fmt.Fprintln(wr, "ready")
+	wr.Flush()
 	for {
 		line, err := rd.ReadString('\n')
 		if err != nil {
@@ -437,6 +518,7 @@ func robustWorker(r *Run) {
 		}
 		f := strings.Fields(line)
 		var o caseOutcome
+		cpu0 := threadCPU()
 		if len(f) != 4 {
 			o.Res = "bad-case"
 		} else {
@@ -451,6 +533,9 @@ func robustWorker(r *Run) {
 		po := "0"
 		if o.ParseOK {
 			po = "1"
+		}
+		if cpu := threadCPU() - cpu0; cpu0 >= 0 && cpu >= 0 {
+			o.Elapsed = cpu
 		}
 		fmt.Fprintf(wr, "%s\t%d\t%s\t%d\t%s\t%s\n", o.Res, int64(o.Elapsed), po, len(o.Out), hexField(o.Panic), hexField(o.BadErr))
 		wr.Flush()
